@@ -442,6 +442,7 @@ type c28Scenario struct {
 	initiator int
 	target    int // index into c28Idents; 4 = X (unreachable)
 	maxTTL    int32
+	noDrops   bool // quick tier, 5-node scenario: delivery orders only, no message loss
 }
 
 // quick tier: one representative (initiator, target) pair per orbit of the
@@ -470,17 +471,25 @@ func c28Scenarios(thorough bool) []c28Scenario {
 				continue // quick tier: the by far largest topology only with MaxTTL 2 (and 3 for a reachable target)
 			}
 			// alpha >= max degree: getNeighbor never has to pick a random subset
-			out = append(out, c28Scenario{ti, 3, i, target, ttl})
+			out = append(out, c28Scenario{ti, 3, i, target, ttl, !thorough && t.name == "kite5"})
 			// alpha = 1 only where every node has at most one candidate anyway
 			// (a line, initiator at an end): still deterministic, and the
 			// route lists are capped at one route.
 			if strings.HasPrefix(t.name, "line") && t.degree(i) == 1 {
-				out = append(out, c28Scenario{ti, 1, i, target, ttl})
+				out = append(out, c28Scenario{ti, 1, i, target, ttl, false})
 			}
 		}
 	}
 	for ti, t := range c28Topos {
 		if !thorough {
+			for _, p := range c28QuickPairs[t.name] {
+				add(ti, strings.IndexByte(c28Letters, p[0]), strings.IndexByte(c28Letters, p[1]))
+			}
+			continue
+		}
+		if t.name == "complete4" {
+			// vertex- and edge-transitive: every (initiator, target) pair is the image of
+			// A->B or A->X under an automorphism
 			for _, p := range c28QuickPairs[t.name] {
 				add(ti, strings.IndexByte(c28Letters, p[0]), strings.IndexByte(c28Letters, p[1]))
 			}
@@ -514,7 +523,11 @@ func TestVerifC28(t *testing.T) {
 	stepCap := 300
 	var scenNames []string
 	for _, s := range scen {
-		scenNames = append(scenNames, fmt.Sprintf("%s/alpha%d/ttl%d/%c->%c", c28Topos[s.topo].name, s.alpha, s.maxTTL, c28Letters[s.initiator], c28Letters[s.target]))
+		nm := fmt.Sprintf("%s/alpha%d/ttl%d/%c->%c", c28Topos[s.topo].name, s.alpha, s.maxTTL, c28Letters[s.initiator], c28Letters[s.target])
+		if s.noDrops {
+			nm += "/no-drops"
+		}
+		scenNames = append(scenNames, nm)
 	}
 	worlds := map[int]*c28World{}
 	defer func() {
@@ -647,7 +660,10 @@ func TestVerifC28(t *testing.T) {
 						last = c
 					}
 				}
-				ci, dv := x.Choose(len(distinct)), x.Deviate(2)
+				ci, dv := x.Choose(len(distinct)), 0
+				if !sc.noDrops {
+					dv = x.Deviate(2)
+				}
 				curCh = append(curCh, ci, dv)
 				if n := len(curCh); !(same && len(prevCh) >= n && prevCh[n-2] == ci && prevCh[n-1] == dv && len(prevKeys) > step) {
 					same = false
